@@ -220,7 +220,10 @@ def gen_ext(rng, schema, n):
     if names["enum"] and rng.random() < 0.4:
         ext["values"][rng.choice(names["enum"])] = ["EXT_V%d" % n]
     if names["input"] and rng.random() < 0.4:
-        ext["input_fields"][rng.choice(names["input"])] = [{"name": "ext_i%d" % n, "ty": ty(rng.choice(W.SCALARS + names["enum"]))}]
+        t = ty(rng.choice(W.SCALARS + names["enum"]))
+        if t["k"] == "nonNull":
+            t = t["t"]      # a new REQUIRED input field would invalidate existing default values of that input type
+        ext["input_fields"][rng.choice(names["input"])] = [{"name": "ext_i%d" % n, "ty": t}]
     if rng.random() < 0.25:
         ext["new_dirs"].append({"name": "ext_dir%d" % n, "args": [{"name": "d_arg", "ty": ty("Int")}], "locs": ["FIELD"]})
     if not any(ext[k] for k in ext):
